@@ -7,7 +7,8 @@ cd "$(dirname "$0")/.."
 id="$1"; shift
 if ! git -C /repo diff --quiet; then echo "seedtest: /repo has uncommitted changes"; exit 2; fi
 git -C /repo apply "$(pwd)/seeded/$id/patch.diff" || { echo "seedtest: patch does not apply"; exit 2; }
-trap 'git -C /repo checkout -- . ; echo "seedtest: /repo restored"' EXIT
+mkdir -p build/evidence-keep && cp evidence/*.json build/evidence-keep/ 2>/dev/null
+trap 'git -C /repo checkout -- . ; cp build/evidence-keep/*.json evidence/ 2>/dev/null; python3 tools/translate.py >/dev/null; echo "seedtest: /repo, coq/gen and evidence restored"' EXIT
 for p in "$@"; do
   ./check "$p" --tier quick > "build/seed-$id-$p.log" 2>&1
   echo "== $id vs $p: exit $?"
